@@ -421,7 +421,8 @@ def r3_progress_flag(ctx):
                 if w and w['k'] == 'switch' and 'enum' not in w and op_place(w['d']) and op_place(w['d'])['l'] in fd:
                     tests.append(tb)
             reach = b.reachable(b.succ(bb), avoid=clears)
-            stale = sorted(set(tests) & reach)
+            # a reset in the very block that takes the transition is part of the transition
+            stale = sorted(set(tests) & reach) if bb not in clears else []
             ctx.ob('C09.R3', 'flag-cleared|%s|%s->%s' % (b.var_name(fl), frm, to), not stale, b.loc(bb, s),
                    'after taking %s->%s the flag `%s` is %s' % (frm, to, b.var_name(fl),
                        'cleared before it is tested again' if not stale else
